@@ -45,8 +45,17 @@ def funcs():
             'mod_comp': lambda m: pt.mod_comp(m),
             'mod_mass': lambda m, mono=True: pt.mod_mass(m, monoisotopic=mono),
             'estimate_comp': lambda m: CC.estimate_comp(m),
+            'mod_comp_mult': lambda m, k: pt.mod_comp(_mod(m, k)),
+            'mod_mass_mult': lambda m, k, mono=True: pt.mod_mass(_mod(m, k), monoisotopic=mono),
+            'comp': lambda seq: pt.comp(seq),
+            'mass': lambda seq: pt.mass(seq),
         }
     return FUNCS
+
+
+def _mod(m, k):
+    from peptacular.proforma.proforma_parser import Mod
+    return Mod(m, k)
 
 
 def canon(r):
